@@ -873,12 +873,16 @@ static void run_hasher(const job_t* j, const decoder_t* d, void* obj, const uint
     wuffs_base__bitvec256 c = wuffs_base__hasher_bitvec256__checksum_bitvec256((wuffs_base__hasher_bitvec256*)h);
     snprintf(sum, sizeof sum, "%016llx%016llx%016llx%016llx", (unsigned long long)c.elements_u64[3],
              (unsigned long long)c.elements_u64[2], (unsigned long long)c.elements_u64[1], (unsigned long long)c.elements_u64[0]);
+    if (calls == 0) bv = wuffs_base__hasher_bitvec256__checksum_bitvec256((wuffs_base__hasher_bitvec256*)h);  // no update: compare two checksum calls
     bool eq = !memcmp(&c, &bv, sizeof c);
     fprintf(g_ev, "{\"j\":%ld,\"k\":\"end\",\"stop\":\"done\",\"calls\":%ld,\"st\":\"\",\"cls\":\"ok\",\"sum\":\"%s\",\"sum_eq_last\":%s,\"n\":%zu}\n",
             g_job_id, calls, sum, eq ? "true" : "false", n);
   } else {
     uint64_t c = d->kind == K_H32 ? wuffs_base__hasher_u32__checksum_u32((wuffs_base__hasher_u32*)h)
                                   : wuffs_base__hasher_u64__checksum_u64((wuffs_base__hasher_u64*)h);
+    if (calls == 0)  // no update call was made: compare two checksum calls instead
+      last64 = d->kind == K_H32 ? wuffs_base__hasher_u32__checksum_u32((wuffs_base__hasher_u32*)h)
+                                : wuffs_base__hasher_u64__checksum_u64((wuffs_base__hasher_u64*)h);
     snprintf(sum, sizeof sum, d->kind == K_H32 ? "%08llx" : "%016llx", (unsigned long long)c);
     fprintf(g_ev, "{\"j\":%ld,\"k\":\"end\",\"stop\":\"done\",\"calls\":%ld,\"st\":\"\",\"cls\":\"ok\",\"sum\":\"%s\",\"sum_eq_last\":%s,\"n\":%zu}\n",
             g_job_id, calls, sum, c == last64 ? "true" : "false", n);
